@@ -67,7 +67,7 @@ MapOps == <<
 Ops == IF Family = "seq" THEN SeqOps ELSE MapOps
 Templates == [k \in 1..Len(Ops) |-> Parse(Ops[k].t)]
 ASSUME InitRegisters
-ASSUME TLCSet(3, Templates)
+ASSUME TLCSet(3, Norm(Templates))
 
 Name(k) == "v" \o ToString(k)
 
@@ -190,7 +190,7 @@ OpNames == [i \in 1..Len(hist) |-> Ops[hist[i].op].n]
 Emit == /\ Len(hist) = MaxLen
         /\ LET sd == Seeds[seed]
                def0 == ListV(<<SymV("def"), SymV("v0"), ListV(<<SymV("quote"), Parse(sd.v)>>)>>)
-               r == Run(<<def0>> \o Forms)
+               r == RunContinuing(<<def0>> \o Forms)     \* a failing step binds nothing; the history goes on
                names == {Name(i) : i \in 0..Len(hist)}
                c == [kind |-> "history", tag |-> Family, seeds |-> sd.texts, forms |-> Forms, ops |-> OpNames,
                      danger |-> IF danger THEN 1 ELSE 0,
